@@ -768,6 +768,8 @@ MULTI_RESNAMES = ["XA", "XB", "XC"]
 def multires_block(draw, name, nrexcl, syntax):
     nres = draw(st.integers(2, 3))
     atoms, inter = [], []
+    # the block's own residue numbers need not start at 1 (a fragment cut out of a larger molecule)
+    base = draw(st.sampled_from([1, 1, 1, 3, 10]))
     resnames = [draw(st.sampled_from(MULTI_RESNAMES)) for _ in range(nres)]
     first_of = []
     for r in range(nres):
@@ -779,7 +781,7 @@ def multires_block(draw, name, nrexcl, syntax):
         for k in range(nat):
             atoms.append({"name": names[k], "type": draw(st.sampled_from(TYPES)),
                           "charge": draw(st.sampled_from(CHARGES)), "mass": draw(st.sampled_from(MASSES)),
-                          "cgrp": draw(st.integers(1, 6)), "resid": r + 1, "resname": resnames[r]})
+                          "cgrp": draw(st.integers(1, 6)), "resid": base + r, "resname": resnames[r]})
             if k > 0:
                 other = first_of[r] + draw(st.integers(0, k - 1))
                 inter.append(draw(interaction("bonds", [other, first_of[r] + k], guard_ok=False)))
